@@ -237,7 +237,13 @@ struct WdtSpec {
     mirror: bool,
     dirty: bool,
     wild_flags: bool,
+    /// how the root-ADT ids of the file-id table relate to MAIN's presence bits: 0 an id for exactly the present tiles,
+    /// 1 ids for only some of the present tiles, 2 an all-zero table (what convert_wdt itself creates on an upgrade),
+    /// 3 ids for the present tiles and for some absent ones
+    maid_rel: u8,
 }
+
+const MAID_RELS: [&str; 4] = ["ids=present-tiles", "ids-for-some-present-tiles", "all-zero-table", "ids-also-for-absent-tiles"];
 
 impl WdtSpec {
     fn class(&self) -> String {
@@ -251,11 +257,12 @@ impl WdtSpec {
             self.maid,
             if self.dirty { "|dirty" } else { "" },
             if self.mirror && self.maid > 0 { "|mirror" } else { "" }
-        )
+        ) + &(if self.maid > 0 && self.maid_rel > 0 { format!("|{}", MAID_RELS[self.maid_rel as usize]) } else { String::new() })
     }
     fn desc(&self) -> Value {
         json!({"format": "WDT", "version": WDT_VERS[self.ver].1, "grid": self.shape, "wmo_only": self.wmo_only, "mwmo_names": self.mwmo as i32 - 1,
-               "modf_entries": self.modf, "maid_sections": self.maid, "mphd_ids_mirrored": self.mirror, "absent_tiles_carry_data": self.dirty, "random_mphd_flags": self.wild_flags})
+               "modf_entries": self.modf, "maid_sections": self.maid, "mphd_ids_mirrored": self.mirror, "absent_tiles_carry_data": self.dirty, "random_mphd_flags": self.wild_flags,
+               "maid_root_ids_vs_main": if self.maid > 0 { MAID_RELS[self.maid_rel as usize] } else { "no MAID" }})
     }
     /// terrain map of a Cataclysm+ version carrying an MWMO chunk: the format of that version has no such chunk
     fn mwmo_offrule(&self) -> bool {
@@ -263,13 +270,13 @@ impl WdtSpec {
     }
 }
 
-fn wdt_spec(k: u64, rng: &mut Rng) -> WdtSpec {
+fn wdt_spec(k: u64, rng: &mut Rng, rs: &mut Rng) -> WdtSpec {
     let ver = (k % 8) as usize;
     let shape = SHAPES[((k / 8) % 10) as usize];
     let pass = k / 80;
     match pass {
-        0 => WdtSpec { ver, shape, wmo_only: false, mwmo: if ver <= 2 { 1 } else { 0 }, modf: 0, maid: if ver == 7 { 8 } else { 0 }, mirror: true, dirty: false, wild_flags: false },
-        1 => WdtSpec { ver, shape, wmo_only: true, mwmo: 2, modf: 1, maid: if ver == 7 && (k / 8) % 2 == 0 { 8 } else { 0 }, mirror: false, dirty: false, wild_flags: false },
+        0 => WdtSpec { ver, shape, wmo_only: false, mwmo: if ver <= 2 { 1 } else { 0 }, modf: 0, maid: if ver == 7 { 8 } else { 0 }, mirror: true, dirty: false, wild_flags: false, maid_rel: 0 },
+        1 => WdtSpec { ver, shape, wmo_only: true, mwmo: 2, modf: 1, maid: if ver == 7 && (k / 8) % 2 == 0 { 8 } else { 0 }, mirror: false, dirty: false, wild_flags: false, maid_rel: 0 },
         _ => {
             let wmo_only = rng.chance(1, 3);
             let maid = if ver == 7 && rng.chance(2, 3) { *rng.pick(&[8u8, 8, 5, 10]) } else { 0 };
@@ -282,12 +289,12 @@ fn wdt_spec(k: u64, rng: &mut Rng) -> WdtSpec {
             } else {
                 0
             };
-            WdtSpec { ver, shape, wmo_only, mwmo, modf: if wmo_only { 1 + rng.below(2) as u8 } else { 0 }, maid, mirror: rng.bool(), dirty: rng.chance(1, 3), wild_flags: true }
+            WdtSpec { ver, shape, wmo_only, mwmo, modf: if wmo_only { 1 + rng.below(2) as u8 } else { 0 }, maid, mirror: rng.bool(), dirty: rng.chance(1, 3), wild_flags: true, maid_rel: rs.below(4) as u8 }
         }
     }
 }
 
-fn wdt_model(s: &WdtSpec, rng: &mut Rng) -> WdtModel {
+fn wdt_model(s: &WdtSpec, rng: &mut Rng, rs: &mut Rng) -> WdtModel {
     let tiles = grid(s.shape, rng);
     let mut main = vec![(0u32, 0u32); 4096];
     if s.dirty {
@@ -371,6 +378,35 @@ fn wdt_model(s: &WdtSpec, rng: &mut Rng) -> WdtModel {
                     sec[i] = 1 + rng.below(5_000_000) as u32;
                 }
             }
+        }
+        // the id table is content of its own: it need not mirror MAIN (decisions from the second PRNG lane)
+        match s.maid_rel {
+            1 => {
+                for &(x, y) in &tiles {
+                    if rs.bool() {
+                        let i = (y * 64 + x) as usize;
+                        let all = rs.bool();
+                        for (sn, sec) in secs.iter_mut().enumerate() {
+                            if sn == 0 || all {
+                                sec[i] = 0;
+                            }
+                        }
+                    }
+                }
+            }
+            2 => {
+                for sec in secs.iter_mut() {
+                    sec.iter_mut().for_each(|v| *v = 0);
+                }
+            }
+            3 => {
+                for i in 0..4096usize {
+                    if main[i].0 & 1 == 0 && rs.chance(1, 8) {
+                        secs[0][i] = 1 + rs.below(5_000_000) as u32;
+                    }
+                }
+            }
+            _ => {}
         }
         Some(secs)
     } else {
@@ -474,7 +510,7 @@ fn wdt_read(bytes: &[u8], hint: WowVersion) -> Result<WdtFile, String> {
 fn main_relation(w: &WdtFile, main: &[(u32, u32)]) -> Option<(&'static str, (usize, usize))> {
     let got = |x: usize, y: usize| w.main.get(x, y).map(|e| (e.flags, e.area_id));
     let mut first = None;
-    let (mut transposed, mut low16) = (true, true);
+    let (mut transposed, mut low16, mut presence) = (true, true, true);
     for y in 0..64usize {
         for x in 0..64usize {
             let g = got(x, y);
@@ -488,16 +524,23 @@ fn main_relation(w: &WdtFile, main: &[(u32, u32)]) -> Option<(&'static str, (usi
             if g != Some((m.0, m.1 & 0xFFFF)) {
                 low16 = false;
             }
+            // only the has-ADT bit (bit 0 of the flags) differs
+            if g.map(|g| (g.0 | 1, g.1)) != Some((m.0 | 1, m.1)) {
+                presence = false;
+            }
         }
     }
-    first.map(|f| (if transposed { "transposed" } else if low16 { "area-id-truncated-16" } else { "other" }, f))
+    first.map(|f| (if transposed { "transposed" } else if low16 { "area-id-truncated-16" } else if presence { "has-adt-bit-only" } else { "other" }, f))
 }
 
-fn wdt_case(c: &mut Case, s: &WdtSpec, rng: &mut Rng) {
+fn wdt_case(c: &mut Case, s: &WdtSpec, rng: &mut Rng, rs: &mut Rng) {
     let vname = WDT_VERS[s.ver].1;
     let era = wdt_era(s.ver);
     let kind = if s.wmo_only { "wmo-only" } else { "terrain" };
-    let m = wdt_model(s, rng);
+    let m = wdt_model(s, rng, rs);
+    if s.maid > 0 {
+        c.count(&format!("wdt_maid|{}", MAID_RELS[s.maid_rel as usize]), 1);
+    }
     let w = wdt_build(&m);
     c.count(&format!("wdt_files|{vname}"), 1);
     c.count(&format!("wdt_grids|{}", s.shape), 1);
@@ -718,6 +761,39 @@ fn wdt_case(c: &mut Case, s: &WdtSpec, rng: &mut Rng) {
                 }
             }
             Err(e) => c.violate(format!("wdt|convert|converted-file-unreadable|{pair}|{kind}"), format!("{vname}->{tname}: converted file does not survive write->parse: {e}"), s.desc()),
+        }
+        // ---- a second conversion on top of the first (version chains v -> t -> u, among them the way back v -> t -> v):
+        // tile data must survive every step
+        for (u, &(uv, uname)) in WDT_VERS.iter().enumerate() {
+            let chain = format!("{pair}->{}", wdt_era(u));
+            let mut cv2 = cv.clone();
+            c.count("wdt_convert_chains", 1);
+            match trap(|| convert_wdt(&mut cv2, tv, uv)) {
+                Ok(Ok(())) => {}
+                Ok(Err(e)) => {
+                    c.violate(format!("wdt|convert-chain|failed|{chain}"), format!("convert_wdt {tname}->{uname} failed on the result of {vname}->{tname}: {e}"), s.desc());
+                    continue;
+                }
+                Err(pn) => {
+                    c.violate(format!("wdt|convert-chain|{}|{chain}", pn.sig()), format!("convert_wdt {tname}->{uname} panicked on the result of {vname}->{tname}: {}", pn.msg), s.desc());
+                    continue;
+                }
+            }
+            if let Some((rel, (x, y))) = main_relation(&cv2, &m.main) {
+                c.violate(format!("wdt|convert-chain|main-changed|{rel}|{chain}"), format!("convert_wdt {vname}->{tname}->{uname} changed tile data in its second step, first at ({x},{y})"), s.desc());
+                continue;
+            }
+            if u == s.ver && t != s.ver {
+                c.count("wdt_convert_return_trips", 1);
+                match wdt_write(&cv2).and_then(|b| wdt_read(&b, uv)) {
+                    Ok(back) => {
+                        if let Some((rel, (x, y))) = main_relation(&back, &m.main) {
+                            c.violate(format!("wdt|convert-chain|main-changed-after-write|{rel}|{chain}"), format!("{vname}->{tname}->{uname}: converted file written and parsed has different tile data, first at ({x},{y})"), s.desc());
+                        }
+                    }
+                    Err(e) => c.violate(format!("wdt|convert-chain|converted-file-unreadable|{chain}|{kind}"), format!("{vname}->{tname}->{uname}: converted file does not survive write->parse: {e}"), s.desc()),
+                }
+            }
         }
     }
 }
@@ -1276,8 +1352,9 @@ fn main() {
             continue;
         }
         let mut rng = run.rng(i, 0);
-        let s = wdt_spec(k, &mut rng);
-        run.case(i, &s.class(), s.desc(), |c| wdt_case(c, &s, &mut rng));
+        let mut rs = run.rng(i, 1);
+        let s = wdt_spec(k, &mut rng, &mut rs);
+        run.case(i, &s.class(), s.desc(), |c| wdt_case(c, &s, &mut rng, &mut rs));
     }
     idx += n_wdt;
     for k in 0..n_wdl {
